@@ -272,11 +272,28 @@ Theorem C16_data_stall_release_bound : forall c s dr p x, alive s ->
 Proof. exact data_stall_release_bound. Qed.
 Print Assumptions C16_data_stall_release_bound.
 
-Theorem C16_data_progress_rearms : forall c s dr p t, alive s -> xf s = XMove dr p ->
-  (forall d k, end_dl std_wiring c s = Some (d, k) -> t < d) ->
-  step std_wiring c s (DataProgress t) = set_xf s (XMove dr t).
+(* progress re-arms the data timer at the instant the NEXT read/write starts = progress + throttle wait d of
+   the stream ... *)
+Theorem C16_data_progress_rearms : forall c s dr p t d, alive s -> xf s = XMove dr p ->
+  (forall x k, end_dl std_wiring c s = Some (x, k) -> t < x) ->
+  step std_wiring c s (DataProgress t d) = set_xf s (XMove dr (t + d)).
 Proof. exact data_progress_rearms. Qed.
 Print Assumptions C16_data_progress_rearms.
+
+(* ... so the server's own pacing is not counted against socket_timeout, however long it is (speed limit x
+   timeout): the data deadline after progress at t with wait d is due (t + d) socket_timeout, and whatever
+   happens before it (and before the other deadlines) finds the session alive.  The control-channel counterpart
+   is C16_next_line_rearms / C16_active_never_idle_dropped (the idle timer is armed at t + d) *)
+Theorem C16_data_pause_not_counted : forall c s dr p t d x e, alive s -> xf s = XMove dr p ->
+  socket c = Some x ->
+  (forall y k, end_dl std_wiring c s = Some (y, k) -> t < y) ->
+  let s' := step std_wiring c s (DataProgress t d) in
+  data_dl std_wiring c s' = Some (due (t + d) x, CData) /\
+  ((forall y k, idle_dl std_wiring c s' = Some (y, k) -> time_of e < y) ->
+   (forall y k, cw_dl std_wiring c s' = Some (y, k) -> time_of e < y) ->
+   time_of e < due (t + d) x -> alive (step std_wiring c s' e)).
+Proof. exact data_pause_not_counted. Qed.
+Print Assumptions C16_data_pause_not_counted.
 
 Theorem C16_ctrl_write_stall_bound : forall c s t x, alive s ->
   cw s = Some t -> socket c = Some x ->
@@ -385,14 +402,14 @@ Example ex_425 : let s := s_of cfg1 [Line 1 0 KPlain; Line 2 0 (KXfer Down)] in
 Proof. vm_compute. repeat split. Qed.
 
 (* C16_data_stall_bound: data connected before RETR at 2, progress at 3, then nothing: session ends at 6 < 7 *)
-Example ex_stall : let s := s_of cfg1 [DataConnects 1; Line 2 0 (KXfer Down); DataProgress 3] in
+Example ex_stall : let s := s_of cfg1 [DataConnects 1; Line 2 0 (KXfer Down); DataProgress 3 0] in
   xf s = XMove Down 3 /\ ended (finish std_wiring cfg1 s) = Some (3 + 3, CData).
 Proof. vm_compute. repeat split. Qed.
 
 (* C16_idle_drop_during_transfer: the transfer makes progress every second and is still dropped at 2 + 5 *)
 Example ex_idle_mid_transfer :
-  ended (run std_wiring cfg1 0 [DataConnects 1; Line 2 0 (KXfer Down); DataProgress 3; DataProgress 4;
-                               DataProgress 5; DataProgress 6; DataProgress (13 # 2); DataProgress 8])
+  ended (run std_wiring cfg1 0 [DataConnects 1; Line 2 0 (KXfer Down); DataProgress 3 0; DataProgress 4 0;
+                               DataProgress 5 0; DataProgress 6 0; DataProgress (13 # 2) 0; DataProgress 8 0])
   = Some (2 + 5, CIdle).
 Proof. vm_compute. reflexivity. Qed.
 
@@ -439,3 +456,21 @@ Example ex_zero_wait :
   let s := run std_wiring c 0 [Line 1 0 KPlain; Line 2 0 (KXfer Down)] in
   r425 s = [2] /\ ended s = Some (2 + 5, CIdle).
 Proof. vm_compute. repeat split. Qed.
+
+(* speed limit x timeout, throttle waits LONGER than the timeouts, a peer that never stalls:
+   control channel -- idle_timeout 2, every command costs a 4 s wait, a command every second: each line is consumed
+   the instant the read is armed, the session is alive after the last one and dropped only 2 s after its arming;
+   data channel -- socket_timeout 2, the block read at 3 costs a 15 s wait, the peer sent the next block long ago:
+   alive at 18 (read armed at 18), dropped at 18 + 2 only because nothing more comes *)
+Example ex_pause_longer_than_idle :
+  let c := {| idle := Some 2; socket := None; wait_future := None |} in
+  let evs := [Line 1 4 KPlain; Line 5 4 KPlain; Line 9 4 KPlain] in
+  within_idle 2 0 evs /\ alive (s_of c evs) /\ ended (finish std_wiring c (s_of c evs)) = Some (9 + 4 + 2, CIdle).
+Proof. vm_compute. repeat split; reflexivity. Qed.
+
+Example ex_pause_longer_than_socket :
+  let c := {| idle := None; socket := Some 2; wait_future := None |} in
+  let evs := [DataConnects 1; Line 2 0 (KXfer Up); DataProgress 3 15] in
+  alive (s_of c (evs ++ [Tick 17])) /\ alive (s_of c (evs ++ [DataProgress 18 15; Tick 34])) /\
+  ended (finish std_wiring c (s_of c evs)) = Some (3 + 15 + 2, CData).
+Proof. vm_compute. repeat split; reflexivity. Qed.
